@@ -253,8 +253,8 @@ def fragment_programs(ctx, specinfo):
         ex = vlib.sample(ex, 350, ctx.rnd)
         sims = vlib.sample(sims, 250, ctx.rnd)
     else:
-        ex = vlib.sample(ex, 16000, ctx.rnd)
-        sims = vlib.sample(sims, 12000, ctx.rnd)
+        ex = vlib.sample(ex, 6000, ctx.rnd)
+        sims = vlib.sample(sims, 4000, ctx.rnd)
     if os.environ.get('C01_FRAG_N'):
         ex, sims = ex[: int(os.environ['C01_FRAG_N'])], sims[: int(os.environ['C01_FRAG_N'])]
     for sym in ex + sims:
@@ -431,7 +431,7 @@ _ex(r'0[xX][0-9a-fA-F_]*[eEbB][0-9a-fA-F_]*n?\s*(\?|\)|&&|\|\||:)|!\s*0[xX][0-9a
 _ex(r'function\b[^(]*\([^)]*\b(undefined|NaN|Infinity)\b[^)]*\)\s*\{|\b(var|let|const)\s+([^;=]*,\s*)?(undefined|NaN|Infinity)\b|'
     r'\(([^()]*)\b(undefined|NaN|Infinity)\b[^()]*\)\s*=>|\b(undefined|NaN|Infinity)\s*=>',
     'K16 local bindings named undefined/NaN/Infinity (treated as the global constants)')
-_ex(r'\bvoid\s*\(?\s*(class\b|[\w.$]+\s*([-+*/%<>&|^]|instanceof\b|in\b|[!=]=)|[-+~!]|typeof\b|[\[{`])|'
+_ex(r'\bvoid\s*\((?!\s*0\s*\))|\bvoid\s*(class\b|[\w.$]+\s*([-+*/%<>&|^]|instanceof\b|in\b|[!=]=)|[-+~!]|typeof\b|[\[{`])|'
     r'\bif\s*\([^;{}]*[-+*/%<>&|^!~=][^;{}]*\)\s*(;|\{\s*;?\s*\}|\{\s*(let|const)\s[^{};]*;?\s*;?\s*\})\s*(?!\s*else)|'
     r'\{\s*(let|const)\s+\w+\s*=\s*[^;{}]*[-+*/%<>&|^!~][^;{}]*;?\s*\}',
     'K17 operator/class/literal expressions in discarded position (void X, if(X);, if(X){let y=..}, {let x=X}): hasSideEffects does '
